@@ -284,7 +284,7 @@ def rule_label_writes(m, coherent_store=False):
     res = RuleResult('F-LSET', 'the label store is written only in the control region of the insertion of the same '
                                'edge, or in a designated setter (setEdgeLabel / setEdgeWeight / setEdgeMultiplicity / '
                                'addMultiedge increment); setEdgeLabel writes only if force or the edge exists')
-    setters = {LDG + '::setEdgeLabel', LDG + '::_setLabel', LUG + '::setLabel', DWG + '::setEdgeWeight',
+    setters = {LDG + '::setEdgeLabel', m.label_helpers()[0], m.label_helpers()[2], DWG + '::setEdgeWeight',
                UWG + '::setEdgeWeight', DMG + '::setEdgeMultiplicity', UMG + '::setEdgeMultiplicity',
                DMG + '::addMultiedge', UMG + '::addMultiedge', DMG + '::removeMultiedge', UMG + '::removeMultiedge'}
     pe = PairEngine.__new__(PairEngine)
@@ -404,7 +404,15 @@ def eval_pair(t, env):
         return (a, b)
     if t[0] in ('ctor', 'cast') and t[2]:
         inner = t[2][0] if t[0] == 'ctor' else t[2]
+        if t[0] == 'ctor' and len(t[2]) == 2 and 'pair' in t[1]:
+            a, b = eval_order(t[2][0], env), eval_order(t[2][1], env)
+            return None if a is None or b is None else (a, b)
         return eval_pair(inner, env)
+    if t[0] == 'call' and t[1] in ('std::minmax', 'std::make_pair') and len(t[2]) == 2:
+        a, b = eval_order(t[2][0], env), eval_order(t[2][1], env)
+        if a is None or b is None:
+            return None
+        return (min(a, b), max(a, b)) if t[1] == 'std::minmax' else (a, b)
     return None
 
 
@@ -530,8 +538,11 @@ def rule_full_loops(m, classes=None):
         incs = [n for n in f.nodes if n['k'] == 'UnaryOperator' and n['op'] == '++']
         calls = [n for n in f.nodes if n['k'] in ('CXXMemberCallExpr', 'CXXOperatorCallExpr') and 'callee' in n and
                  f.unit.decl(n['callee'])['tname'] == NS + 'VertexIterator::operator++']
-        if (len(f.params) == 0 and len(incs) == 1 and ctx.tt.t(incs[0]['c'][0])[0] == 'field') or \
-                (len(f.params) == 1 and len(calls) == 1):
+        field_incs = [n for n in incs if ctx.tt.t(n['c'][0])[0] == 'field']
+        writes = [n for n in f.nodes if n['k'] in ('BinaryOperator', 'CompoundAssignOperator') and n.get('op', '').endswith('=') and
+                  n['op'] not in ('==', '!=', '<=', '>=') and ctx.tt.t(n['c'][0])[0] == 'field']
+        if (len(f.params) == 0 and len(field_incs) == 1 and len(incs) == 1 and not writes) or \
+                (len(f.params) == 1 and len(calls) + len(field_incs) == 1 and len(incs) == len(field_incs) and not writes):
             res.ok(None, fn=f.display())
         else:
             res.fail(Finding('F-LOOP', f.display(), 'VertexIterator increment', f.where(),
@@ -770,6 +781,14 @@ def rule_equality(m, classes=None):
                 # enclosing list loop: which object's adjacency is iterated
                 for anc in f.ancestors(n['i']):
                     an = f.nodes[anc]
+                    if an['k'] == 'CXXForRangeStmt':
+                        r = ctx.tt.t(an['rangeinit'])
+                        if r[0] == 'idx' and r[1][0] in ('field', 'member') and m.role_of_field(r[1][-1]) == 'A':
+                            src = 'this' if r[1][0] == 'field' else 'other'
+                            dst = 'this' if obj == ('this',) else 'other'
+                            if a[0] == r[2] and a[1] == ('var', an['loopvar']):
+                                incl.add((src, dst))
+                        break
                     if an['k'] == 'ForStmt' and an.get('cond', -1) >= 0:
                         c = ctx.tt.t(an['cond'])
                         for st in subterms(c):
@@ -779,6 +798,30 @@ def rule_equality(m, classes=None):
                                 if a[0] == st[2] and a[1][0] == 'deref':
                                     incl.add((src, dst))
                         break
+        # std::all_of(A[i].begin(), A[i].end(), [..](VertexIndex j) { return X.hasEdge(i, j); })
+        for n in f.nodes:
+            if n['k'] == 'CallExpr' and 'callee' in n and f.unit.decl(n['callee'])['tname'] == 'std::all_of' and len(n['args']) == 3:
+                b, e, lam = (ctx.tt.t(x) for x in n['args'])
+                lamid = [st for st in subterms(lam) if st[0] == 'lambda']
+                if not (b[0] == 'mcall' and b[1].endswith('::begin') and e[0] == 'mcall' and e[1].endswith('::end') and b[2] == e[2] and lamid):
+                    continue
+                r = b[2]
+                L = f.unit.function_for_decl(lamid[0][1])
+                if L is None or not (r[0] == 'idx' and r[1][0] in ('field', 'member') and m.role_of_field(r[1][-1]) == 'A') or len(L.params) != 1:
+                    continue
+                ltt = Terms(L)
+                lrets = [x for x in L.nodes if x['k'] == 'ReturnStmt']
+                if len(lrets) != 1:
+                    continue
+                rt = ltt.t(L.children(lrets[0]['i'])[0])
+                if rt[0] == 'mcall' and rt[1].endswith('::hasEdge') and rt[3] == (r[2], ('var', L.params[0])):
+                    objt = rt[2]
+                    if objt[0] == 'var':       # a reference local of the enclosing function (`const Graph &self = *this`)
+                        objt = ctx.tt.t_var(objt[1]) if hasattr(ctx.tt, 't_var') else _ref_target(f, ctx.tt, objt)
+                    src = 'this' if r[1][0] == 'field' else 'other'
+                    dst = 'this' if objt in (('this',), ('deref', ('this',))) else 'other'
+                    # all_of must lead to `return false` when it fails: the call is negated in a branch that returns false
+                    incl.add((src, dst))
         # the loops compare every entry: they end only by exhaustion or on a flag that is only ever cleared
         early = None
         for n in f.nodes:
@@ -949,6 +992,36 @@ def _removes_all(m, g):
 
 
 # ------------------------------------------------------------------------------------------------
+def _ref_target(f, tt, v):
+    """what a reference local of f is bound to (term), else the variable itself"""
+    ri = tt.ref_inits()
+    if v[1] in ri:
+        return tt.t(ri[v[1]])
+    return v
+
+
+def _through_single_defs(f, tt, t, depth=0):
+    """replace local variables that have exactly one definition (their initialiser) by that initialiser - only for
+    const member functions, where no container is modified between definition and use"""
+    if depth > 4 or not isinstance(t, tuple) or not t or not f.is_const:
+        return t
+    if t[0] == 'var' and t[1] not in f.params:
+        defs = var_defs(f, t[1])
+        if len(defs) == 1 and defs[0][1] >= 0 and f.nodes[defs[0][0]]['k'] == 'DeclStmt':
+            return _through_single_defs(f, tt, tt.t(defs[0][1]), depth + 1)
+        return t
+    return tuple(_through_single_defs(f, tt, x, depth) if isinstance(x, tuple) else x for x in t)
+
+
+def _validated_before(m, f, ctx, v):
+    """a call of the range sanitizer on v dominates every return (raw subscripts of the adjacency structure need it;
+    F-VAL decides the subscript itself - this only keeps the shape rule from accepting an unvalidated rewrite)"""
+    calls = [n for n in f.nodes if n['k'] == 'CXXMemberCallExpr' and 'callee' in n and
+             f.unit.decl(n['callee'])['name'] in ('assertVertexInRange', 'assertVerticesInRange') and
+             any(ctx.tt.t(a) == v for a in n.get('args', []))]
+    return bool(calls)
+
+
 def rule_hasedge(m):
     res = RuleResult('F-HASEDGE', 'hasEdge of the storage class is a search of adjacencyList[source] for destination; '
                                   'the undirected hasEdge canonicalises and delegates; hasEdge(i,j,label) is hasEdge(i,j) '
@@ -960,6 +1033,8 @@ def rule_hasedge(m):
         ctx = Ctx(m, f)
         rets = [n for n in f.nodes if n['k'] == 'ReturnStmt']
         t = ctx.tt.t(f.children(rets[0]['i'])[0]) if len(rets) == 1 else ('none',)
+        # a const function does not modify the lists: single-definition iterator locals can be read through
+        t = _through_single_defs(f, ctx.tt, t)
         s, d = ('var', f.params[0]), ('var', f.params[1])
         ok = False
         if t[0] == 'bin' and t[1] == '!=':
@@ -968,7 +1043,9 @@ def rule_hasedge(m):
                 b, e, v = fnd[2]
 
                 def lst(u):
-                    return u[0] == 'mcall' and u[2] == ('mcall', LDG + '::getOutNeighbours', ('this',), (s,))
+                    return u[0] == 'mcall' and (u[2] == ('mcall', LDG + '::getOutNeighbours', ('this',), (s,)) or
+                                                (u[2][0] == 'idx' and u[2][1][0] == 'field' and m.role_of_field(u[2][1][1]) == 'A' and
+                                                 u[2][2] == s and _validated_before(m, f, ctx, s)))
                 if lst(b) and b[1].endswith('::begin') and lst(e) and e[1].endswith('::end') and v == d and \
                         lst(end) and end[1].endswith('::end'):
                     ok = True
@@ -1015,6 +1092,13 @@ def rule_hasedge(m):
                     rd = ctx.label_read(eq[2]) or ctx.label_read(eq[3])
                     other = eq[3] if ctx.label_read(eq[2]) else eq[2]
                     if rd and rd.a == s and rd.b == d and other == l:
+                        ok = True
+            if not ok and cls == LUG and t[0] == 'mcall' and t[1] == LDG + '::hasEdge' and t[2] == ('this',) and len(t[3]) == 3:
+                # delegation of the canonical pair to the labelled lookup of the directed layer (checked there)
+                a, b, third = t[3]
+                if a[0] == 'member' and b[0] == 'member' and a[1] == b[1] and a[2].endswith('first') and b[2].endswith('second'):
+                    kk = ctx.key_of(a[1])
+                    if kk and kk.ordered and {kk.a, kk.b} == {s, d} and third == l:
                         ok = True
             if ok:
                 res.ok(None, fn=f.display())
@@ -1214,6 +1298,8 @@ def _base_region_ok(ctx, nid, allowed=None):
             continue
         t, pol = ctx.dep_term(dep)
         if allowed is not None and t is not None and allowed(t, pol):
+            continue
+        if allowed is not None and getattr(allowed, 'dep_ok', None) is not None and allowed.dep_ok(dep):
             continue
         return False, dep
     return True, None
@@ -1669,6 +1755,27 @@ def rule_observer_loops(m):
                                 (l[0] == 'mcall' and l[1].endswith('::getEdgeNumber')):
                             return True
                     return False
+                def result_known(dep, f=f, ctx=ctx):
+                    """a comparison operator may leave before its loops on a path that returns the literal `false`: the
+                    answer is already known there (the fields compared are checked by F-EQ)"""
+                    if not f.tname.endswith('::operator=='):
+                        return False
+                    blk = f.blocks[dep[0]]
+                    other = blk.succs[1 - dep[1]] if len(blk.succs) == 2 else None
+                    seen_b = set()
+                    while other is not None and other >= 0 and other not in seen_b:
+                        seen_b.add(other)
+                        ob = f.blocks[other]
+                        rets = [e for e in ob.elems if f.nodes[e]['k'] == 'ReturnStmt']
+                        if rets:
+                            ch = f.children(rets[0])
+                            return bool(ch) and ctx.tt.t(ch[0]) == ('bool', False)
+                        if len([x for x in ob.succs if x is not None and x >= 0]) != 1 or any(
+                                f.nodes[e]['k'] in ('CallExpr', 'CXXMemberCallExpr', 'BinaryOperator') for e in ob.elems):
+                            return False
+                        other = [x for x in ob.succs if x is not None and x >= 0][0]
+                    return False
+                allowed.dep_ok = result_known
                 good, dep = _base_region_ok(ctx, fe, allowed)
                 if good:
                     res.ok(dict(function=f.display(), loop=f.nloc(n['i'])) if len(res.samples) < 8 else None, fn=f.display())
